@@ -424,6 +424,15 @@ func (x *Exec) applyExtern(instr ssa.Value, name string, rs *types.Tuple, args [
 			ufail("regexp at %s: the assumed contract of %s was written for pattern %q but the code uses %q", pos, name, ex.Pattern, got)
 		}
 	}
+	if ex.MayPanic {
+		goal := tFalse
+		if hasDeferredRecover(x.fn) {
+			goal = tTrue
+		}
+		x.nsafety++
+		x.vc.oblige(&Obligation{Name: fmt.Sprintf("%s.call(%s).panic-contained#%d", x.fnName(), name, x.nsafety), Kind: "panic-containment", Tags: ex.PanicTags,
+			Goal: goal, PC: pc, Src: name + " may panic on some inputs: the calling function installs a deferred recover before the call", Pos: pos})
+	}
 	var results []Term
 	switch ex.Kind {
 	case "havoc", "log":
@@ -603,6 +612,131 @@ func (x *Exec) walkrelObligations(penv *Env) {
 		x.vc.oblige(&Obligation{Name: cl.Name + ".reflexive", Kind: "walk-relation", Tags: cl.Tags, Goal: rel(cl, a, a), PC: tTrue, Src: "reflexive: " + cl.Src})
 		x.vc.oblige(&Obligation{Name: cl.Name + ".transitive", Kind: "walk-relation", Tags: cl.Tags, Goal: implies(and(rel(cl, a, b), rel(cl, b, c)), rel(cl, a, c)), PC: tTrue, Src: "transitive: " + cl.Src})
 	}
+}
+
+// ---- goroutine life cycle (C16, first sentence): necessary conditions of "ends promptly and leaves nothing behind"
+// that are safety properties of one thread. If the ghosts below are declared:
+//   spawnedCtx set[Ref]  contexts handed to goroutines started by this function   (go statement, by argument type)
+//   wgSpawned int        goroutines started with a *sync.WaitGroup argument        (go statement)
+// and the externs maintain cancelled / wgAdded / wgDone, then `(*sync.WaitGroup).Wait` can require that every started
+// goroutine was told to stop and is being waited for.
+
+type deferRec struct {
+	call   *ssa.CallCommon
+	name   string
+	rs     *types.Tuple
+	args   []Term
+	callee *ssa.Function
+	pos    string
+}
+
+func (x *Exec) execGo(i *ssa.Go, st *State, pc Term) {
+	callee := i.Call.StaticCallee()
+	var args []Term
+	for _, a := range i.Call.Args {
+		args = append(args, x.operand(a, st))
+	}
+	for k, a := range i.Call.Args {
+		switch typeKey(a.Type()) {
+		case "context.Context":
+			if x.eng.ghostDecl("spawnedCtx") != nil {
+				st.ghosts["spawnedCtx"] = x.vc.define("g_spawnedCtx", sto(x.ghostGet(st, "spawnedCtx"), args[k], tTrue))
+			}
+		case "*sync.WaitGroup":
+			if x.eng.ghostDecl("wgSpawned") != nil {
+				st.ghosts["wgSpawned"] = x.vc.define("g_wgSpawned", bvadd64(x.ghostGet(st, "wgSpawned"), bvInt(64, 1)))
+			}
+		}
+	}
+	if callee == nil {
+		return
+	}
+	fc := x.eng.contractFor(x.eng.unwrap(callee))
+	if fc == nil {
+		return
+	}
+	// the new goroutine starts without any lock: its preconditions are checked in this state with an empty lock set
+	pre := st.clone()
+	if x.eng.ghostDecl("locked") != nil {
+		pre.ghosts["locked"] = constArray(arraySort(SRef, SBool), tFalse)
+	}
+	if x.eng.ghostDecl("concurrent") != nil {
+		pre.ghosts["concurrent"] = tTrue
+	}
+	env := &Env{x: x, cur: pre, old: pre, vars: map[string]SVal{}, pkg: callee.Pkg.Pkg}
+	bindParams(x, env, callee, args, pre)
+	for _, l := range fc.Lets {
+		env.vars[l.Name] = env.concrete(env.eval(l.E))
+	}
+	for _, c := range fc.Requires {
+		goal := x.evalClause(env, c)
+		x.nsafety++
+		x.vc.oblige(&Obligation{Name: fmt.Sprintf("%s.go(%s).%s#%d", x.fnName(), fc.Name, c.Name[strings.LastIndex(c.Name, ".")+1:], x.nsafety),
+			Kind: "requires-at-go", Tags: c.Tags, Goal: goal, PC: pc, Src: c.Src, Pos: x.posStr(i.Pos()), Observe: x.observations()})
+	}
+}
+
+// recordDefer: a deferred call of an extern in the entry block is applied when the function returns
+func (x *Exec) recordDefer(i *ssa.Defer, st *State, pc Term) bool {
+	if i.Block().Index != 0 || i.Call.IsInvoke() {
+		return false
+	}
+	callee := i.Call.StaticCallee()
+	if callee == nil || x.eng.contractFor(callee) != nil {
+		return false
+	}
+	name := calleeName(callee)
+	ex := x.eng.externFor(name)
+	if ex == nil || (len(ex.Ensures) == 0 && len(ex.Modifies) == 0 && len(ex.Requires) == 0) {
+		return false
+	}
+	var args []Term
+	for _, a := range i.Call.Args {
+		args = append(args, x.operand(a, st))
+	}
+	x.defers = append(x.defers, deferRec{&i.Call, name, callee.Signature.Results(), args, callee, x.posStr(i.Pos())})
+	return true
+}
+
+func (x *Exec) runDefers(st *State, pc Term) {
+	for k := len(x.defers) - 1; k >= 0; k-- {
+		d := x.defers[k]
+		x.curCall = d.call
+		x.applyExtern(nil, d.name, d.rs, d.args, d.callee, st, pc, d.pos)
+	}
+}
+
+// hasDeferredRecover: the entry block defers a function (named or literal) whose body calls the builtin recover directly
+func hasDeferredRecover(fn *ssa.Function) bool {
+	if fn == nil || len(fn.Blocks) == 0 {
+		return false
+	}
+	for _, ins := range fn.Blocks[0].Instrs {
+		d, ok := ins.(*ssa.Defer)
+		if !ok {
+			continue
+		}
+		var callee *ssa.Function
+		switch v := d.Call.Value.(type) {
+		case *ssa.Function:
+			callee = v
+		case *ssa.MakeClosure:
+			callee, _ = v.Fn.(*ssa.Function)
+		}
+		if callee == nil {
+			continue
+		}
+		for _, b := range callee.Blocks {
+			for _, in := range b.Instrs {
+				if c, ok := in.(*ssa.Call); ok {
+					if bi, ok := c.Call.Value.(*ssa.Builtin); ok && bi.Name() == "recover" {
+						return true
+					}
+				}
+			}
+		}
+	}
+	return false
 }
 
 // lockOwner: the call's receiver is the mutex held in field MUTEX of a named struct for which a `lockinv` is declared
@@ -790,7 +924,8 @@ func (x *Exec) execDynamicCall(instr ssa.Value, c *ssa.CallCommon, st *State, pc
 	if nt, ok := c.Value.Type().(*types.Named); ok {
 		name := "dyn:" + canonType(nt)
 		if x.eng.externFor(name) != nil {
-			x.applyExtern(instr, name, sig.Results(), args, nil, st, pc, pos)
+			// p0 is the function value itself, p1.. are the arguments
+			x.applyExtern(instr, name, sig.Results(), append([]Term{f}, args...), nil, st, pc, pos)
 			return
 		}
 	}
